@@ -102,7 +102,9 @@ def arange(*interval, dtype=None, requires_grad=False, name=None, device=None):
     """
     Creates a Tensor filled with values in range
     """
-    return Tensor(np.arange(*interval, dtype=default_type__), dtype=dtype, requires_grad=requires_grad, name=name, device=device)
+    # a requested floating dtype is used from the start: the values are not rounded through the default (float32) first
+    values_dtype = dtype if dtype is not None and np.issubdtype(dtype, np.floating) else default_type__
+    return Tensor(np.arange(*interval, dtype=values_dtype), dtype=dtype, requires_grad=requires_grad, name=name, device=device)
 
 def rand(*shape, dtype=None, requires_grad=False, name=None, device=None):
     """
